@@ -37,6 +37,9 @@ ALPHABET = {
     "file-to-symlink": [("rm", "d1", "b"), ("symlink", "d1", "b", "a")],
     "symlink-to-file": [("rm", "d1", "sl"), ("write", "d1", "sl", 400, 0)],
     "retarget-symlink": [("symlink", "d1", "sl", "b")],
+    "symlink-to-hardlink": [("rm", "d1", "sl"), ("hardlink", "d1", "sl", "a")],
+    "hardlink-to-symlink": [("rm", "d1", "hl"), ("symlink", "d1", "hl", "b")],
+    "retarget-hardlink": [("rm", "d1", "hl"), ("hardlink", "d1", "hl", "b")],
     "add-hardlink": [("hardlink", "d1", "hl2", "b")],
     "remove-hardlink": [("rm", "d1", "hl")],
     "mtime-only": [("touch", "d1", "b", 1)],
@@ -128,7 +131,10 @@ def has_unsynced(c):
 def post_sync_oracle(L, where):
     """after a sync that exited 0"""
     v = []
-    c = L.content()
+    try:
+        c = L.content()
+    except C.ContentError as e:
+        return [dict(kind="content-undecodable-after-successful-sync", where=where, err=str(e))]
     gt_files, gt_links, gt_dirs = ground_truth(L)
     r = L.run("diff")
     s = r.tags.summary()
@@ -193,6 +199,8 @@ def pre_sync_oracle(L, where):
         c = L.content()
     except FileNotFoundError:
         return v
+    except C.ContentError as e:
+        return [dict(kind="content-undecodable", where=where, err=str(e))]
     gt_files, gt_links, gt_dirs = ground_truth(L)
     rec_files, rec_links, rec_dirs = recorded(c)
     gt_files, gt_links = norm(gt_files, gt_links)
